@@ -67,6 +67,7 @@ def strategy(draw):
         case["crlf"] = draw(st.booleans())
         if case["negative"] in ("missing", "duplicate") and kind == "numeric":
             pass
+    case["as_path"] = draw(gen.chance(4))      # pathlib.Path instead of str
     case["multi"] = dict(nrec=draw(st.integers(1, 4)), dfn_mode=draw(st.sampled_from(["none", "scalar", "list"])),
                          kw_mode=draw(st.sampled_from(["none", "dict", "list"])), dfns=[draw(gen.floats(-720, 720)) for _ in range(4)],
                          skips=[draw(st.integers(0, 5)) for _ in range(4)])
@@ -294,6 +295,10 @@ def check_case(case):
                 return dict(labels=labels + [f"negative:{neg}"], nontrivial=False)
             raise Violation(f"{fmt}: a file set with {neg.replace('-', ' ')} was read as a recording instead of raising an error")
         refuse = exp["dfn"] == "refuse" and explicit is None
+        if case.get("as_path"):
+            import pathlib
+            fn = pathlib.Path(fn) if isinstance(fn, str) else [pathlib.Path(x) for x in fn]
+            labels.append("pathlib")
         try:
             rec = sut(hv.read_single, fn, degrees_from_north=explicit, allow=(ValueError,) if refuse else (), what=f"read_single[{fmt}]")
         except Refusal:
@@ -329,8 +334,8 @@ def check_case(case):
                 require(_ang_eq(rec.degrees_from_north, d), f"{fmt}: orientation {rec.degrees_from_north}, the file's metadata gives {d}")
         names = rec.meta.get("file name(s)")
         flat = [names] if isinstance(names, str) else list(names)
-        want_files = [fn] if isinstance(fn, str) else list(fn)
-        require([os.path.basename(str(x)) for x in flat] == [os.path.basename(x) for x in want_files], f"meta['file name(s)'] = {names!r} does not name the files read")
+        want_files = list(fn) if isinstance(fn, (list, tuple)) else [fn]
+        require([os.path.basename(str(x)) for x in flat] == [os.path.basename(str(x)) for x in want_files], f"meta['file name(s)'] = {names!r} does not name the files read")
 
         # ---- read(): per-recording arguments, in order ---------------------------
         M = case["multi"]
